@@ -238,7 +238,8 @@ EXTENSIONS = {
     "C09": " Also: idempotency of a repeated XL evaluation, batch transparency of the XL/KSA functional incl. entropy up to "
     "T_el 3e4 K, the same object moved to a new geometry, and a hot (T_el 13000 K) KSA family for the dt^2 scaling of the free energy.",
     "C10": " Two further oracles on every recovered image: the RNG state at each resumed step equals that of the uninterrupted "
-    "run (engines that draw random numbers), and a checkpoint once published never disappears later in the same history.",
+    "run (engines that draw random numbers), and a checkpoint once published never disappears later in the same history.  Further "
+    "configurations: /data sparser than two checkpoint intervals; every byte cut of the XYZ writes after the first checkpoint.",
     "C12": " Also: (a') the same driver object initialised for another equally padded batch first; (d) the real "
     "SurfaceHoppingDynamics object with a damping time and real CIS electronic structure: one-hot identification of the thermostat "
     "it applies, its n_dof against that thermostat's stationary state, two noise draws per real integrator step; (r) a thermostatted run interrupted after a checkpoint and finished by run_from_checkpoint is "
@@ -247,10 +248,14 @@ EXTENSIONS = {
     "C14": " Also: calls mixing ground- and excited-state rows, and the charges published by the XL path after a move.",
     "C15": " The job pool also contains learned-parameter lists, a job refused inside the SCF loop, the same method/elements with "
     "another parameter directory, and a loose threshold shared by an XL-BOMD/Langevin run and a single point through the caller's "
-    "own dictionary (MD jobs receive the caller's dictionary itself).",
-    "C16": " Also: the same object evaluated again (scripted positive and negative phase of the guess), CIS and RPA.",
+    "own dictionary (MD jobs receive the caller's dictionary itself), single-precision jobs, and Langevin jobs on two layouts of one "
+    "padded shape that can share the engine object itself.",
+    "C16": " Also: the same object evaluated again (scripted positive and negative phase of the guess; rigidly rotated geometries), "
+    "CIS and RPA; RPA with its own stored amplitudes handed back as the guess; on every solve |F C - C diag(e)| for the orbitals "
+    "and orbital energies the solver used.",
     "C17": " Also: a coupling spike between two populated non-active states.",
-    "C18": " Also: axis-aligned layouts (x, y, z, -z), a PM6 frame sub-lattice, active states given as tensors, the energy-only path.",
+    "C18": " Also: axis-aligned layouts (x, y, z, -z), a PM6 frame sub-lattice, active states given as tensors, the energy-only path; "
+    "requests outside the listed preconditions that are accepted must agree with their valid twin and with the molecules alone.",
     "C19": " Also: one driver object over a dimer scan that crosses a finite pair cutoff in both directions.",
 }
 
